@@ -2420,6 +2420,26 @@ def write_cache_meta(meta: CacheMeta, manager: BuildManager, meta_file: str) -> 
         # (see https://github.com/python/mypy/issues/3215).
         # The next run will simply find the cache entry out of date.
         manager.log(f"Error writing cache meta file {meta_file}")
+        # Make sure of that: the old meta file must not be paired with the
+        # meta_ex file that is written next (nothing ties the two together).
+        try:
+            metastore.remove(meta_file)
+        except Exception:
+            pass
+
+
+def remove_cache_meta_ex(meta_file: str, manager: BuildManager) -> None:
+    """Remove the meta_ex file that belongs to a meta file that is about to be replaced.
+
+    Nothing ties a meta_ex file to the meta file it was written with, so a stale one
+    must not be left behind: if we are interrupted (or the write fails) before the new
+    meta_ex is written, the new meta would be paired with the old errors and the old
+    indirect dependencies.
+    """
+    try:
+        manager.metastore.remove(get_meta_ex_name(meta_file))
+    except Exception:
+        pass
 
 
 def write_cache_meta_ex(meta_file: str, meta_ex: CacheMetaEx, manager: BuildManager) -> None:
@@ -4839,6 +4859,7 @@ def process_stale_scc(graph: Graph, ascc: SCC, manager: BuildManager) -> None:
             for dep in graph[id].dependencies
             if state.priorities.get(dep) != PRI_INDIRECT
         ]
+        remove_cache_meta_ex(meta_file, manager)
         write_cache_meta(meta, manager, meta_file)
         indirect = [dep for dep in state.dependencies if state.priorities.get(dep) == PRI_INDIRECT]
         meta_ex = CacheMetaEx(
@@ -4917,6 +4938,7 @@ def process_stale_scc_interface(
             for dep in state.dependencies
             if state.priorities.get(dep) != PRI_INDIRECT
         ]
+        remove_cache_meta_ex(meta_file, manager)
         write_cache_meta(meta, manager, meta_file)
         manager.commit_module(meta_file)
         scc_result.append((id, ModuleResult(graph[id].interface_hash.hex(), []), meta_file))
